@@ -146,3 +146,24 @@ Theorem C15_rotating_write_recreates_dir : forall c w t id size t1 t2 t3 t4 t5 o
   fopen w' = Some (next_ino w, newFileName c t4) /\ step_ok c w1 (Write id size t1 t2 t3 t4 t5 nofault) = true.
 Proof. exact rotating_write_recreates_dir. Qed.
 Print Assumptions C15_rotating_write_recreates_dir.
+
+(* ---- what the check's verdict means (RunFileSinkSound.v; same evaluator as C08) ---- *)
+From Verif Require Import Run_FileSink RunFileSinkSound.
+Theorem C15_verdict_is_model_execution : forall cs,
+  mismatches cs = [] <->
+  Forall (fun k =>
+    dirlog_ok (c_dirlog k) /\
+    (c_model k = true -> accepted (c_cfg k) (w_init (c_fids k) (c_dm k) (c_k0 k)) (c_steps k)) /\
+    oracles_ok (c_cfg k) (c_writers k) (c_counts k) (c_dm k) false false (w_init (c_fids k) (c_dm k) (c_k0 k)) [] 0%N (c_steps k)) cs.
+Proof. exact mismatches_nil_iff. Qed.
+Print Assumptions C15_verdict_is_model_execution.
+(* one observation agrees with the model state exactly when the evaluator reports nothing for it: acknowledgement, listing
+   (kinds, modes, contents in reading order), BytesWritten, LastCreated, directory mode, foreign files, stdout/stderr *)
+Theorem C15_observation_agrees_iff : forall w ok o, check_model w ok o = [] <-> agrees w ok o.
+Proof. exact check_model_nil_iff. Qed.
+Print Assumptions C15_observation_agrees_iff.
+(* the directory event log of a concurrent case: stamps strictly increase in order of appearance (= order of the critical
+   sections) and retention only removes the oldest-created rotated file *)
+Theorem C15_dirlog_verdict : forall l, dirlog_check l = [] <-> dirlog_ok l.
+Proof. exact dirlog_check_nil_iff. Qed.
+Print Assumptions C15_dirlog_verdict.
